@@ -16,6 +16,7 @@ import (
 	"time"
 
 	"github.com/nspcc-dev/neo-go/pkg/config"
+	"github.com/nspcc-dev/neo-go/pkg/core/block"
 	"github.com/nspcc-dev/neo-go/pkg/core/native/nativenames"
 	"github.com/nspcc-dev/neo-go/pkg/core/native/noderoles"
 	"github.com/nspcc-dev/neo-go/pkg/core/state"
@@ -135,6 +136,8 @@ type w3World struct {
 	rng         *rand.Rand // seeded: random signer subsets
 	nRandom     int
 	thin        bool // quick tier: the repeat and cross-replay passes skip the peer sets
+	rk0, rk2    []*wallet.Account // designated role before / after the re-designation scenario
+	irc0, irc2  util.Uint160      // its majority account before / after
 	crafted     []*w3Princ // m-of-n accounts over the right keys with a wrong m
 	light       bool       // this chain runs the base sweep only
 	snapLast    w3Snap
@@ -260,27 +263,39 @@ func (w *w3World) tx(ps []*w3Princ, script []byte, sysFee int64, unscoped ...*w3
 }
 
 func (w *w3World) txE(ps, entry []*w3Princ, script []byte, sysFee int64, unscoped ...*w3Princ) *transaction.Transaction {
+	return w.txS(nil, transaction.None, ps, entry, script, sysFee, unscoped...)
+}
+
+// txS: sender (nil: the harness's payer) with the given scope first.
+func (w *w3World) txS(sender *w3Princ, senderScope transaction.WitnessScope, ps, entry []*w3Princ, script []byte, sysFee int64, unscoped ...*w3Princ) *transaction.Transaction {
 	tx := transaction.New(script, 0)
 	tx.Nonce = neotest.Nonce()
 	tx.ValidUntilBlock = w.BC.BlockHeight() + 1
-	ps = w3Dedup(ps)
-	signers := []neotest.Signer{w.payer.S}
-	tx.Signers = []transaction.Signer{{Account: w.payer.Hash, Scopes: transaction.None}}
-	for _, p := range ps {
-		if p.Hash == w.payer.Hash {
-			panic("payer used as witness")
+	first := w.payer
+	if sender != nil {
+		first = sender
+	} else {
+		senderScope = transaction.None
+	}
+	used := map[util.Uint160]bool{first.Hash: true}
+	signers := []neotest.Signer{first.S}
+	tx.Signers = []transaction.Signer{{Account: first.Hash, Scopes: senderScope}}
+	add := func(list []*w3Princ, scope transaction.WitnessScope) {
+		for _, p := range w3Dedup(list) {
+			if p.Hash == w.payer.Hash {
+				panic("payer used as witness")
+			}
+			if used[p.Hash] {
+				continue
+			}
+			used[p.Hash] = true
+			tx.Signers = append(tx.Signers, transaction.Signer{Account: p.Hash, Scopes: scope})
+			signers = append(signers, p.S)
 		}
-		tx.Signers = append(tx.Signers, transaction.Signer{Account: p.Hash, Scopes: transaction.Global})
-		signers = append(signers, p.S)
 	}
-	for _, p := range unscoped {
-		tx.Signers = append(tx.Signers, transaction.Signer{Account: p.Hash, Scopes: transaction.None})
-		signers = append(signers, p.S)
-	}
-	for _, p := range w3Dedup(entry) {
-		tx.Signers = append(tx.Signers, transaction.Signer{Account: p.Hash, Scopes: transaction.CalledByEntry})
-		signers = append(signers, p.S)
-	}
+	add(ps, transaction.Global)
+	add(unscoped, transaction.None)
+	add(entry, transaction.CalledByEntry)
 	neotest.AddNetworkFee(w.T, w.BC, tx, signers...)
 	tx.SystemFee = sysFee
 	for _, s := range signers {
@@ -442,6 +457,18 @@ func (w *w3World) setup() {
 		w.gasTransfer(w.princ(nm).Hash, 100_000_0000_0000)
 	}
 	w.neoTransfer(w.princ("U").Hash, 100)
+	{
+		var nms []string
+		for nm, p := range w.P {
+			if len(p.Pub) > 0 && w.BC.GetUtilityTokenBalance(p.Hash).Sign() == 0 {
+				nms = append(nms, nm)
+			}
+		}
+		sort.Strings(nms)
+		for _, nm := range nms {
+			w.gasTransfer(w.princ(nm).Hash, 100_000_0000_0000)
+		}
+	}
 
 	for _, nm := range w3Contracts {
 		w.compile(nm)
@@ -468,10 +495,12 @@ func (w *w3World) setup() {
 	w.deploy("processing", w.C["processing"], cm, []any{w.H["neofs"]})
 	require.Equal(t, procHash, w.H["processing"])
 
-	w.deploy("caller", w.CompileHelper("caller"), cm, nil)
+	w.deploy("caller", w.CompileHelper("c03caller"), w.princ("stranger"), nil)
 
 	// designate the NeoFSAlphabet role (Inner Ring)
 	w.must(w.send(w.god(), w.roles, "designateAsRole", int64(noderoles.NeoFSAlphabet), w3Pubs(w.rk)), "designate")
+
+	w.rk0, w.irc0 = w.rk, w.princ("ir-committee").Hash
 
 	// GAS for the contracts that pay out
 	w.gasTransfer(w.H["alphabet"], 1000_0000_0000)
@@ -616,7 +645,10 @@ type w3Diff struct {
 	Tokens  []string `json:"tokens,omitempty"`
 }
 
-func (w *w3World) diff(a, b w3Snap) w3Diff {
+func (w *w3World) diff(a, b w3Snap) w3Diff { return w.diffBut(a, b, nil) }
+
+// diffBut: the GAS balance of feePayer (it pays the fees of this transaction) is not compared.
+func (w *w3World) diffBut(a, b w3Snap, feePayer *w3Princ) w3Diff {
 	var d w3Diff
 	var insts []string
 	for k := range a.store {
@@ -641,7 +673,7 @@ func (w *w3World) diff(a, b w3Snap) w3Diff {
 		}
 	}
 	for i := range w.tracked {
-		if a.gas[i].Cmp(b.gas[i]) != 0 {
+		if a.gas[i].Cmp(b.gas[i]) != 0 && !(feePayer != nil && w.tracked[i] == feePayer.Hash) {
 			d.Tokens = append(d.Tokens, fmt.Sprintf("GAS %s %s", w.trackName[i], new(big.Int).Sub(b.gas[i], a.gas[i])))
 		}
 		if a.neo[i].Cmp(b.neo[i]) != 0 {
@@ -839,7 +871,15 @@ type w3SigSet struct {
 	// the forwarding helper contract: the scope covers the helper only, not the
 	// nested call, so they are no witnesses for the callee either.
 	Entry []*w3Princ
+	// Sender, when set, is the FIRST signer of the transaction (it pays the
+	// fees instead of the harness's payer), with scope None — or CalledByEntry
+	// when the call goes through the forwarding helper (Entry non-empty or
+	// SenderEntry): being the sender of a transaction is not a witness.
+	Sender      *w3Princ
+	SenderEntry bool
 }
+
+func (s w3SigSet) viaHelper() bool { return len(s.Entry) > 0 || s.SenderEntry }
 
 func (w *w3World) signerSets(call *w3Call, rng *rand.Rand, nRandom int) []w3SigSet {
 	var sets []w3SigSet
@@ -904,6 +944,26 @@ func (w *w3World) signerSets(call *w3Call, rng *rand.Rand, nRandom int) []w3SigS
 	}
 	for _, nm := range []string{"member0", "ir-member", "neofs-member"} {
 		sets = append(sets, w3SigSet{Name: nm + " with scope None", Unscoped: []*w3Princ{w.princ(nm)}})
+	}
+	// the named principal is the SENDER of the transaction (first signer, pays
+	// the fees) with a scope that covers nothing; somebody else is the caller
+	if call.Via == "" {
+		for _, p := range named {
+			if len(p.Pub) == 0 {
+				continue
+			}
+			var others []*w3Princ
+			for _, q := range named {
+				if q.Hash != p.Hash {
+					others = append(others, q)
+				}
+			}
+			sets = append(sets, w3SigSet{Name: "sender:" + p.Name + " with scope None, stranger with Global", Sender: p, Ps: []*w3Princ{w.princ("stranger")}})
+			sets = append(sets, w3SigSet{Name: "sender:" + p.Name + " with scope None, alphabet+committee+other named with Global", Sender: p,
+				Ps: w3Dedup(append([]*w3Princ{w.princ("alpha"), w.princ("committee")}, others...))})
+			sets = append(sets, w3SigSet{Name: "sender:" + p.Name + " and stranger with scope CalledByEntry, through a foreign contract", Sender: p, SenderEntry: true,
+				Entry: []*w3Princ{w.princ("stranger")}})
+		}
 	}
 	// everybody relevant signs with scope CalledByEntry, but the call is
 	// nested in a foreign contract
@@ -976,6 +1036,9 @@ func (w *w3World) signerSets(call *w3Call, rng *rand.Rand, nRandom int) []w3SigS
 		}
 		for _, p := range s.Entry {
 			hs = append(hs, "entry:"+p.Hash.StringLE())
+		}
+		if s.Sender != nil {
+			hs = append(hs, fmt.Sprintf("sender:%s:%v", s.Sender.Hash.StringLE(), s.SenderEntry))
 		}
 		sort.Strings(hs)
 		k := strings.Join(hs, ",")
@@ -1100,6 +1163,10 @@ func (o *w3Out) argRef(chain string, call *w3Call) string {
 }
 
 func (w *w3World) chainLit(o *w3Out, notaryOff bool) string {
+	return w.chainLitWith(o, notaryOff, w.rk, w.princ("ir-committee").Hash)
+}
+
+func (w *w3World) chainLitWith(o *w3Out, notaryOff bool, rk []*wallet.Account, irc util.Uint160) string {
 	hl := func(ks []*wallet.Account) string {
 		var xs []string
 		for _, k := range ks {
@@ -1108,8 +1175,8 @@ func (w *w3World) chainLit(o *w3Out, notaryOff bool) string {
 		return ListLit(xs)
 	}
 	r := func(name string) string { return o.pool.Ref(w.princ(name).Hash.BytesBE()) }
-	return fmt.Sprintf("mkChain %s %s %s %s %s %s %s %s %s %s", r("alpha"), r("committee"), r("ir-committee"), r("neofs-alpha"),
-		hl(w.lk), hl(w.rk), r("member0"), o.pool.Ref(w.gas.BytesBE()), o.pool.Ref(w.neo.BytesBE()), BoolLit(notaryOff))
+	return fmt.Sprintf("mkChain %s %s %s %s %s %s %s %s %s %s", r("alpha"), r("committee"), o.pool.Ref(irc.BytesBE()), r("neofs-alpha"),
+		hl(w.lk), hl(rk), r("member0"), o.pool.Ref(w.gas.BytesBE()), o.pool.Ref(w.neo.BytesBE()), BoolLit(notaryOff))
 }
 
 func w3ArgsString(args []any) string {
@@ -1146,17 +1213,24 @@ func (w *w3World) runCall(o *w3Out, v *w3Variant, call *w3Call, set w3SigSet, re
 	var r Result
 	var caller *util.Uint160
 	ps := set.Ps
-	switch {
-	case call.Via == "" && len(set.Entry) > 0:
-		fh := w.H["caller"]
-		caller = &fh
-		tx0 := w.E.NewUnsignedTx(w.T, fh, "call", h, v.M, call.Args)
-		tx := w.txE(ps, set.Entry, tx0.Script, w3SysFee, set.Unscoped...)
+	special := call.Via == "" && (set.viaHelper() || set.Sender != nil)
+	if special {
+		var tx0 *transaction.Transaction
+		scope := transaction.None
+		if set.viaHelper() {
+			fh := w.H["caller"]
+			caller = &fh
+			tx0 = w.E.NewUnsignedTx(w.T, fh, "call", h, v.M, call.Args)
+			scope = transaction.CalledByEntry
+		} else {
+			tx0 = w.E.NewUnsignedTx(w.T, h, v.M, call.Args...)
+		}
+		tx := w.txS(set.Sender, scope, ps, set.Entry, tx0.Script, w3SysFee, set.Unscoped...)
 		r = w.ResultOf(tx, w.E.AddNewBlock(w.T, tx))
 	}
 	switch call.Via {
 	case "":
-		if len(set.Entry) == 0 {
+		if !special {
 			r = w.sendU(ps, set.Unscoped, h, v.M, call.Args...)
 		}
 	case "contract":
@@ -1174,20 +1248,33 @@ func (w *w3World) runCall(o *w3Out, v *w3Variant, call *w3Call, set w3SigSet, re
 		r = w.send(ps, tok, "transfer", call.ViaFrom.Hash, h, call.ViaAmt, call.ViaData)
 	}
 	after := w.snap()
-	d := w.diff(before, after)
+	d := w.diffBut(before, after, set.Sender)
 	effect := len(d.Storage) > 0 || len(d.Tokens) > 0 || len(r.Events) > 0
 	class := w3Class(r)
 	var hashes []util.Uint160
 	var names []string
+	var witnessing []*w3Princ
 	for _, p := range ps {
+		if set.Sender != nil && p.Hash == set.Sender.Hash {
+			continue // the sender's own scope wins
+		}
 		hashes = append(hashes, p.Hash)
 		names = append(names, p.Name)
+		witnessing = append(witnessing, p)
 	}
+	ps = witnessing
 	for _, p := range set.Unscoped {
 		names = append(names, p.Name+"(scope None)")
 	}
 	for _, p := range set.Entry {
 		names = append(names, p.Name+"(scope CalledByEntry, via a foreign contract)")
+	}
+	if set.Sender != nil {
+		sc := "None"
+		if set.viaHelper() {
+			sc = "CalledByEntry, via a foreign contract"
+		}
+		names = append([]string{set.Sender.Name + "(SENDER, scope " + sc + ")"}, names...)
 	}
 	ctx := w3Ctx{signers: hashes, caller: caller}
 	mkey := w3MKey(inst, v.M, v.Arity)
@@ -1347,7 +1434,7 @@ func (w *w3World) runSets(o *w3Out, v *w3Variant, req *w3Req, next func() *w3Cal
 		var hs []util.Uint160
 		ps := s.Ps
 		var caller *util.Uint160
-		if probe.Via == "contract" || (probe.Via == "" && len(s.Entry) > 0) {
+		if probe.Via == "contract" || (probe.Via == "" && s.viaHelper()) {
 			fh := w.H["caller"]
 			caller = &fh
 		} else if probe.Via != "" {
@@ -1359,6 +1446,9 @@ func (w *w3World) runSets(o *w3Out, v *w3Variant, req *w3Req, next func() *w3Cal
 			caller = &tok
 		}
 		for _, p := range ps {
+			if s.Sender != nil && p.Hash == s.Sender.Hash {
+				continue
+			}
 			hs = append(hs, p.Hash)
 		}
 		met := req != nil && req.Eval(w, w3Ctx{signers: hs, caller: caller}, probe, v.C == "neofs_nd")
@@ -1496,6 +1586,7 @@ func (w *w3World) sweep(o *w3Out, table map[string]*w3Req, variants []*w3Variant
 type w3Mutation struct {
 	desc string
 	val  any
+	via  string // "contract": the call is made through the forwarding helper
 }
 
 // w3Mutations lists the boundary values tried for one argument.
@@ -1503,31 +1594,33 @@ func w3Mutations(m *manifest.Method, args []any, i int) []w3Mutation {
 	var out []w3Mutation
 	switch m.Parameters[i].Type.String() {
 	case "Integer":
-		out = append(out, w3Mutation{"0", int64(0)}, w3Mutation{"-1", int64(-1)}, w3Mutation{"2^40", int64(1) << 40})
+		out = append(out, w3Mutation{desc: "0", val: int64(0)}, w3Mutation{desc: "-1", val: int64(-1)}, w3Mutation{desc: "2^40", val: int64(1) << 40})
 	case "ByteArray":
-		out = append(out, w3Mutation{"empty", []byte{}}, w3Mutation{"Null", nil})
+		out = append(out, w3Mutation{desc: "empty", val: []byte{}}, w3Mutation{desc: "Null"})
 		if b, ok := args[i].([]byte); ok && len(b) > 1 {
-			out = append(out, w3Mutation{"one byte shorter", append([]byte{}, b[:len(b)-1]...)})
+			out = append(out, w3Mutation{desc: "one byte shorter", val: append([]byte{}, b[:len(b)-1]...)})
 		}
 	case "Hash160":
-		out = append(out, w3Mutation{"Null", nil}, w3Mutation{"19 bytes", w3Fill(19, 7)})
+		out = append(out, w3Mutation{desc: "Null"}, w3Mutation{desc: "19 bytes", val: w3Fill(19, 7)},
+			w3Mutation{desc: "the calling contract's own hash, called through that contract", val: "helper", via: "contract"},
+			w3Mutation{desc: "the called contract's own hash, called through a foreign contract", val: "callee", via: "contract"})
 		for j, p := range m.Parameters {
 			if j != i && p.Type.String() == "Hash160" && args[j] != nil {
-				out = append(out, w3Mutation{"same as " + p.Name, args[j]})
+				out = append(out, w3Mutation{desc: "same as " + p.Name, val: args[j]})
 				break
 			}
 		}
 	case "Hash256":
-		out = append(out, w3Mutation{"Null", nil}, w3Mutation{"31 bytes", w3Fill(31, 7)})
+		out = append(out, w3Mutation{desc: "Null"}, w3Mutation{desc: "31 bytes", val: w3Fill(31, 7)})
 	case "PublicKey":
-		out = append(out, w3Mutation{"Null", nil}, w3Mutation{"32 bytes", w3Fill(32, 7)})
+		out = append(out, w3Mutation{desc: "Null"}, w3Mutation{desc: "32 bytes", val: w3Fill(32, 7)})
 	case "String":
-		out = append(out, w3Mutation{"empty", ""})
+		out = append(out, w3Mutation{desc: "empty", val: ""})
 	case "Array":
-		out = append(out, w3Mutation{"empty", []any{}}, w3Mutation{"Null", nil})
+		out = append(out, w3Mutation{desc: "empty", val: []any{}}, w3Mutation{desc: "Null"})
 	case "Boolean":
 		if b, ok := args[i].(bool); ok {
-			out = append(out, w3Mutation{fmt.Sprint(!b), !b})
+			out = append(out, w3Mutation{desc: fmt.Sprint(!b), val: !b})
 		}
 	}
 	return out
@@ -1570,12 +1663,27 @@ func (w *w3World) boundaryPass(o *w3Out, table map[string]*w3Req, variants []*w3
 					c.Princ = append([]*w3Princ{}, c.Princ...)
 					c.Nulls = append([]int{}, c.Nulls...)
 					c.Args[i] = mu.val
+					if mu.via != "" {
+						c.Via = mu.via
+						if mu.val == "helper" {
+							c.Args[i] = w.H["caller"]
+						} else {
+							c.Args[i] = w.H[v.C]
+						}
+					}
 					switch m.Parameters[i].Type.String() {
 					case "Hash160", "PublicKey":
 						if i < len(c.Princ) {
 							c.Princ[i] = nil // re-derived from the new value
 						}
 					}
+					var nulls []int
+					for _, n := range c.Nulls {
+						if n != i {
+							nulls = append(nulls, n)
+						}
+					}
+					c.Nulls = nulls
 					if mu.val == nil {
 						c.Nulls = append(c.Nulls, i)
 					}
@@ -1709,6 +1817,127 @@ func (w *w3World) generic(o *w3Out, table map[string]*w3Req, variants []*w3Varia
 	return extra
 }
 
+// redesignation: the NeoFSAlphabet role (Inner Ring) is designated anew in
+// block N (one member leaves, one joins).  A designation made in block N is
+// effective from block N+1: calls gated by the Inner Ring list in the SAME
+// block (after the designation) are still judged by the old list, calls in
+// the VERY NEXT block by the new one.  Old-only, new-only and common members
+// call audit.put; the old and the new majority accounts call neofs.update and
+// processing.update.
+func (w *w3World) redesignation(o *w3Out, table map[string]*w3Req) {
+	rz := w3Key("inner-ring-new", 0)
+	newOnly := w.addPrinc(w3Single("ir-member-new", rz))
+	w.gasTransfer(newOnly.Hash, 1000_0000_0000)
+	oldKeys := w.rk
+	newKeys := w3SortAccs(append(append([]*wallet.Account{}, oldKeys[1:]...), rz))
+	oldIRC := w.princ("ir-committee")
+	newIRC := w.addPrinc(w3Multi("ir-committee-new", w3MajM(len(newKeys)), newKeys))
+	oldOnly := w3Single("ir-member-old-only", oldKeys[0])
+	common := w3Single("ir-member-common", oldKeys[1])
+	w.rk2, w.irc2 = newKeys, newIRC.Hash
+
+	type planned struct {
+		inst, method string
+		arity        int
+		args         []any
+		signer       *w3Princ
+		princ        []*w3Princ
+		tx           *transaction.Transaction
+	}
+	seq := 0
+	plan := func(withUpdates bool) []*planned {
+		var ps []*planned
+		for _, who := range []*w3Princ{oldOnly, newOnly, common} {
+			seq++
+			ps = append(ps, &planned{inst: "audit", method: "put", arity: 1, signer: who, princ: []*w3Princ{who},
+				args: []any{w3AuditBlob(int64(900+seq), w3ID("redesignate", seq), who.Pub)}})
+		}
+		if withUpdates {
+			for _, inst := range []string{"neofs", "processing"} {
+				nef, m := w.nefManifest(inst)
+				for _, who := range []*w3Princ{oldIRC, newIRC} {
+					ps = append(ps, &planned{inst: inst, method: "update", arity: 3, signer: who, args: []any{nef, m, nil}})
+				}
+			}
+		}
+		for _, p := range ps {
+			tx0 := w.E.NewUnsignedTx(w.T, w.H[p.inst], p.method, p.args...)
+			p.tx = w.tx([]*w3Princ{p.signer}, tx0.Script, w3SysFee)
+		}
+		return ps
+	}
+	judge := func(phase string, chainName string, effective []*wallet.Account, irc util.Uint160, b *block.Block, ps []*planned) {
+		for _, p := range ps {
+			r := w.ResultOf(p.tx, b)
+			class := w3Class(r)
+			effect := r.Halt // audit.put stores on HALT; update never halts here (same version)
+			met := false
+			if p.method == "put" {
+				for _, k := range effective {
+					if w3Single("x", k).Hash == p.signer.Hash {
+						met = true
+					}
+				}
+			} else {
+				met = p.signer.Hash == irc
+			}
+			mkey := w3MKey(p.inst, p.method, p.arity)
+			label := "re-designation of the Inner Ring, " + phase
+			call := &w3Call{Args: p.args, Princ: p.princ}
+			for len(call.Princ) < len(p.args) {
+				call.Princ = append(call.Princ, nil)
+			}
+			o.st.Evaluations++
+			o.st.OpHistogram[p.inst+"."+p.method]++
+			coqKey := fmt.Sprintf("(%s, %q, %d%%nat)", w3CoqContract[p.inst], p.method, p.arity)
+			o.cases = append(o.cases, fmt.Sprintf("mkCase %s %s %s %s %s", coqKey, o.ctxRef([]*w3Princ{p.signer}, nil), o.argRef(chainName, call), class, BoolLit(effect)))
+			rec := w3Record{N: w.N, Inst: p.inst, Method: p.method, Arity: p.arity, Variant: label, Signers: p.signer.Name, Accounts: []string{p.signer.Name},
+				Met: met, Class: class, Fault: r.Fault, Effect: effect, Events: len(r.Events), Args: w3ArgsString(p.args)}
+			o.recs = append(o.recs, rec)
+			req := table[mkey]
+			switch {
+			case !met && effect:
+				o.st.OutcomeHistogram["unmet/EFFECT"]++
+				o.violate("effect", fmt.Sprintf("%s (n=%d, %s) witnessed only by {%s}: requirement %s not met (the signer is not in the list effective for that block), yet the call had an effect",
+					mkey, w.N, label, p.signer.Name, req.Coq()), rec)
+			case met && class == "OFaultGuard":
+				o.st.OutcomeHistogram["met/REFUSED"]++
+				o.violate("met_refused", fmt.Sprintf("%s (n=%d, %s) witnessed by {%s}: requirement %s met (the signer is in the list effective for that block), yet the call was refused: %s",
+					mkey, w.N, label, p.signer.Name, req.Coq(), r.Fault), rec)
+			case met:
+				o.st.OutcomeHistogram["met/redesignation"]++
+				o.distinct[fmt.Sprintf("%d|redesignate|%s|%s|%s", w.N, phase, mkey, p.signer.Name)] = true
+			default:
+				o.st.OutcomeHistogram["unmet/redesignation-refused"]++
+				o.distinct[fmt.Sprintf("%d|redesignate|%s|%s|%s", w.N, phase, mkey, p.signer.Name)] = true
+			}
+		}
+	}
+	// block N: the designation, then calls in the same block
+	d0 := w.E.NewUnsignedTx(w.T, w.roles, "designateAsRole", int64(noderoles.NeoFSAlphabet), w3Pubs(newKeys))
+	dtx := w.tx(w.god(), d0.Script, w3SysFee)
+	same := plan(false)
+	txs := []*transaction.Transaction{dtx}
+	for _, p := range same {
+		txs = append(txs, p.tx)
+	}
+	bN := w.E.AddNewBlock(w.T, txs...)
+	if r := w.ResultOf(dtx, bN); !r.Halt {
+		panic(w3SetupFailure{"designateAsRole (re-designation)", r.Fault})
+	}
+	judge("same block as the designation", "ch_main", oldKeys, oldIRC.Hash, bN, same)
+	// block N+1
+	next := plan(true)
+	txs = nil
+	for _, p := range next {
+		txs = append(txs, p.tx)
+	}
+	bN1 := w.E.AddNewBlock(w.T, txs...)
+	judge("the block right after the designation", "ch_ir2", newKeys, newIRC.Hash, bN1, next)
+	w.rk = newKeys
+	w.snapOK = false
+}
+
 // safeSweep: methods declared safe never modify state, whoever signs.
 func (w *w3World) safeSweep(o *w3Out) (int, int) {
 	n, faults := 0, 0
@@ -1776,11 +2005,18 @@ func (o *w3Out) write(w *w3World, path string, nonsafe []string, agree []string,
 	var sb strings.Builder
 	sb.WriteString("(* generated by harness/witness_test.go — do not edit *)\n")
 	sb.WriteString("From Coq Require Import String.\nFrom Verif Require Import Base.Prelude Model.Witness.\nLocal Open Scope string_scope.\n")
-	chMain, chND := w.chainLit(o, false), w.chainLit(o, true)
+	chMain, chND := w.chainLitWith(o, false, w.rk0, w.irc0), w.chainLitWith(o, true, w.rk0, w.irc0)
+	chIR2 := ""
+	if w.rk2 != nil {
+		chIR2 = w.chainLitWith(o, false, w.rk2, w.irc2)
+	}
 	// force interning of everything before printing the pool
 	body := strings.Join(o.cases, ";\n")
 	sb.WriteString(o.pool.Defs())
 	fmt.Fprintf(&sb, "Definition ch_main : chain := %s.\nDefinition ch_nd : chain := %s.\n", chMain, chND)
+	if chIR2 != "" {
+		fmt.Fprintf(&sb, "(* after the re-designation of the NeoFSAlphabet role *)\nDefinition ch_ir2 : chain := %s.\n", chIR2)
+	}
 	sb.WriteString(strings.Join(o.ctxDefs, "\n") + "\n")
 	sb.WriteString(strings.Join(o.argDefs, "\n") + "\n")
 	sb.WriteString("Definition cases : list case := [\n" + body + "\n].\n")
@@ -1878,6 +2114,7 @@ func TestC03(t *testing.T) {
 		a, b := w.safeSweep(o)
 		safeN += a
 		safeFaults += b
+		w.redesignation(o, table)
 		st.Histories++
 		// coverage list and row agreement (first file only)
 		var nonsafe, agree []string
